@@ -512,6 +512,11 @@ def feat_spec(rng):
         if not langs:
             langs = [0x40C]
         names[nid] = {l: '%s-%x%s' % (text, l, rng.choice(['', '', ' \u00e9\u4e2d', ' \U0001F600'])) for l in langs}
+        # labels dominated by characters that need 3 UTF-8 bytes per UTF-16 unit (the worst case for the engine's conversion buffer), pure
+        # astral labels (4 bytes per pair) and a one-character label; dealt by name id so that the PRNG stream of the family is untouched (S89)
+        if nid % 5 == 2:
+            for l in names[nid]:
+                names[nid][l] = ['\u1000' * (1 + nid % 9), '\uffee\u0800' * (2 + nid % 4) + 'a', '\U0001F600' * (1 + nid % 3), '\u4e2d'][(nid // 5) % 4]
         return nid
     for i in range(nfeat):
         while True:
